@@ -408,7 +408,7 @@ func lcJudge(w *lcWorld, st *Stats) []Deviation {
 
 func TestC13(t *testing.T) {
 	st := statsFor("C13", "TestC13")
-	st.Rule = "rapid state machine over 2 bucket names x 3 URLs (in-memory, two directories): OpenBucket with each mode, Close, repeated Close, CloseAndDelete on any handle ever returned, and writes of already-expired documents (so that the bucket's own expiry run has been through the store); after every step a write+read probe on every handle (for a closed one also through a data store object obtained while it was open), cross-handle visibility of everything written, GetBucketNames and the on-disk files are compared with a registry model; non-trivial = at least two handles were open on one name while a Close / repeated Close / CloseAndDelete happened; distinct by the sequence of <op, outcome>"
+	st.Rule = "rapid state machine over 2 bucket names x 6 URLs (two spellings of in-memory; four directories, two of them differing only in letter case and one with a space): OpenBucket with each mode, Close, repeated Close, CloseAndDelete on any handle ever returned, and writes of already-expired documents (so that the bucket's own expiry run has been through the store); after every step a write+read probe on every handle (for a closed one also through a data store object obtained while it was open), cross-handle visibility of everything written, GetBucketNames and the on-disk files are compared with a registry model; non-trivial = at least two handles were open on one name while a Close / repeated Close / CloseAndDelete happened; distinct by the sequence of <op, outcome>"
 	if replayMode() {
 		rp := loadReplay("TestC13")
 		if rp == nil {
